@@ -6,6 +6,7 @@ import (
 
 // arbitrary bytes into dynbt.Value: a value or an error, never a panic or a spin.
 func VP_C03_dynbt() {
+	vp.NoSpin(300) // bounded input: no loop of the decoder legitimately runs 300 times
 	n := vp.Choice(vpN() + 1)
 	b := vp.Bytes(n)
 	tag := vp.Byte()
